@@ -58,6 +58,10 @@ pub trait SvcApi {
 
     #[endpoint(method = POST, path = "/c", accept = ConjureResponseDeserializer)]
     fn e3(&self, #[body] body_arg: &str) -> Result<String, Error>;
+
+    /// a self-describing (`any`) result: a response without content must not turn into a value
+    #[endpoint(method = GET, path = "/d", accept = ConjureResponseDeserializer)]
+    fn e4(&self) -> Result<conjure_object::Any, Error>;
 }
 
 /// async flavour of the client half
@@ -74,4 +78,7 @@ pub trait SvcApiAsync {
 
     #[endpoint(method = POST, path = "/c", accept = ConjureResponseDeserializer)]
     async fn e3(&self, #[body] body_arg: &str) -> Result<String, Error>;
+
+    #[endpoint(method = GET, path = "/d", accept = ConjureResponseDeserializer)]
+    async fn e4(&self) -> Result<conjure_object::Any, Error>;
 }
